@@ -2,7 +2,7 @@
    a range that is not a whole number of seconds is scaled by range/trunc(range). Witness: rate(m[1500ms]). *)
 From Coq Require Import String.
 From Coq Require Import QArith ZArith List Bool Sorted.
-From OG Require Import C18.Model C18.ProofsA.
+From OG Require Import C18.Model3 C18.Model C18.ProofsA.
 Import ListNotations.
 Open Scope Q_scope.
 
@@ -24,4 +24,19 @@ Print Assumptions C18_subsecond_range_refuted.
 Example C18_subsecond_repaired_agrees :
   oQeq (impl_rate_repaired 1500 1500 0 wit_cut) (Some 10) /\ oQeq (spec_rate 1500 1500 0 (concat wit_cut)) (Some 10) /\
   oQeq (impl_rate_current 1500 1500 0 wit_cut) (Some 15).
+Proof. vm_compute. repeat split. Qed.
+
+(* C18-range-binop-pairs-next-series-after-end: today's walk leaves the matched series only at the end of the chunk.
+   Witness: left series 10 11 12 at steps 0 60 120 (s); the chunk of the right side holds the matched series with a
+   single point at step 0 followed by ANOTHER series with points at 0 60 120.  Step-wise (upstream) answer: one point;
+   today's code adds two points that pair the left series with the other series. *)
+Definition wit_s : list sample := [(0%Z, 10); (60%Z, 11); (120%Z, 12)].
+Definition wit_chunk : list (list sample) := [[(0%Z, 20)]; [(0%Z, 50); (60%Z, 51); (120%Z, 52)]].
+Theorem C18_binop_walk_current_refuted :
+  exists s chunk g, walk_current Qplus s chunk g <> join_spec Qplus s (nth g chunk []).
+Proof. exists wit_s, wit_chunk, 0%nat. vm_compute. discriminate. Qed.
+Print Assumptions C18_binop_walk_current_refuted.
+Example C18_binop_walk_witness_values :
+  walk_current Qplus wit_s wit_chunk 0 = [(0%Z, 10 + 20); (60%Z, 11 + 51); (120%Z, 12 + 52)] /\
+  walk_repaired Qplus wit_s wit_chunk 0 = [(0%Z, 10 + 20)] /\ join_spec Qplus wit_s (nth 0 wit_chunk []) = [(0%Z, 10 + 20)].
 Proof. vm_compute. repeat split. Qed.
